@@ -129,6 +129,10 @@ class FortranSolveT(FunctionContract):
             ctx.prove(V.to_int_term(a[1]) == e['t'] + 1, 'period_passed_one_based', 'pre-at-call')
             ctx.prove(z3.And(V.to_int_term(a[2]) == e['min_iter'], V.to_int_term(a[3]) == e['max_iter'], V.z3_of(a[4]) == e['tol'], V.to_int_term(a[5]) == e['offset']),
                       'iteration_limits_tolerance_and_offset_passed_unchanged', 'pre-at-call')
+            # the up-front rejections of the pure-Python solver hold here too: the compiled routine is reached only with limits in order
+            # and with the offset period inside the span (position of t counted from the start, whichever way t was spelt)
+            ctx.prove(z3.And(e['min_iter'] <= e['max_iter'], nt + e['offset'] >= 0, nt + e['offset'] < env.n),
+                      'engine_reached_only_with_min_iter_not_above_max_iter_and_the_offset_period_inside_the_span', 'pre-at-call')
             ctx.prove(z3.BoolVal(ok_rows), 'check_variable_rows_are_one_based_positions_in_the_variable_order', 'pre-at-call', note=str(rows))
             ctx.prove(V.to_int_term(a[7]) == want_code, 'errors_option_passed_as_its_code', 'pre-at-call')
             if out.kind == 'return' or (out.kind == 'raise' and exc_class(out.exc) in (NonConvergenceError,)) or (out.kind == 'raise' and exc_class(out.exc) is SolutionError):
